@@ -94,6 +94,13 @@ func c14Purity(c *core.Ctx) {
 	// 2: same object again (fresh arrays, equal contents)
 	p2, _ := PrepareOn(p1.Model, run)
 	cmpRuns(c, "rerun-same-object", model, "second run on the same model object", ref, p2.Exec())
+	// 2b: same object, the very same parameter and input array objects handed in again (a caller looping over
+	// start states re-uses them); only states and outputs are fresh
+	p2b, _ := PrepareOn(p1.Model, run)
+	p2b.Inputs, p2b.Params = p1.Inputs, p1.Params
+	p1.Model.ApplyParameters(p1.Params)
+	cmpRuns(c, "rerun-same-input-arrays", model, "second run re-using the input and parameter arrays of the first", ref, p2b.Exec())
+	c.Count("reruns_on_the_same_input_arrays", 1)
 	// 3: after other models (and other parameterisations of this model) have run
 	for _, o := range others {
 		r2 := core.NewRand(o.Seed)
